@@ -21,11 +21,14 @@ CLAIM = {
              "for every text whose parsed entries are wfEntry and plainEntry; and C05_image / C05_roundtrip_text / "
              "C05_idempotent_text: EVERY entry the parser returns satisfies those predicates (up to canonEntry, which only drops the "
              "grouping tag of a number below 1000), hence for EVERY text that parses, with no hypothesis on the parsed entries, the "
-             "formatted text parses to exactly the same entries and is a fixed point of format - under two decidable hypotheses on "
-             "the TEXT, both shown necessary by kernel-evaluated witnesses (C05_image_hypotheses_needed): asciiSpaceOnly (no white "
-             "space other than blank, tab, LF, CR - exactly the class of known findings F27 / F28) and parensClosed (every `(` "
-             "has a `)` later in the text; an unclosed `(` at payee position is outside the context-free predicate wfPayee, the "
-             "round trip itself is unaffected). The two printer models (Okane.Unparse used here, Okane.Print used by C19) are "
+             "formatted text parses to exactly the same entries and is a fixed point of format - under ONE decidable hypothesis on "
+             "the TEXT, shown necessary by kernel-evaluated witnesses (C05_image_hypotheses_needed): asciiSpaceOnly (no white "
+             "space other than blank, tab, LF, CR - exactly the class of known findings F27 / F28). The former second hypothesis "
+             "parensClosed is gone with the repair of paren_str (F36: a transaction code must be closed on its line): a payee that "
+             "begins with an unclosed `(` is read back as printed, wfPayee admits it (payee without code: if it begins with `(` it "
+             "holds no `)`), wfCode excludes `)`, CR and LF, both conditions shown necessary (paren_conditions_needed), and the former "
+             "necessity witness is a regression example (C05_image_unclosed_paren). The stop set of paren_str is tied to the Rust "
+             "source (parenStrStop_tie). The two printer models (Okane.Unparse used here, Okane.Print used by C19) are "
              "proved equal for years <= 9999 and one-column clear marks (printEntry_agree), so the text C19's layout theorems "
              "describe is the text whose read-back is proved here (C05_C19_format). The value-expression round trip is "
              "ExprParse.parse_print_follow (precedence and left associativity, see C08); numbers use the literal theorems of C07. "
@@ -35,10 +38,15 @@ CLAIM = {
              "witnesses: C05_entry_full with wfEntry alone is false (`(-1)`: a negative literal in operand position re-reads as "
              "a negation; the parser never builds such a tree; C05_entry_full_false), not_C05_image_full / "
              "not_C05_roundtrip_full / not_C05_idempotent_full (known findings F27 / F28: Unicode white space the parser does not "
-             "treat as blank), not_C05_eof_full (account + one blank at end of file, outside the grammar). NOT carried by "
-             "theorems, only by the correspondence stream and the oracles on the real code: "
-             "the acceptance of the documented grammar (oracle: every grammar-derived text, also with its last line ended by "
-             "end of file, is accepted by the real parser). The model parser agrees with the real one on trees, entry spans, "
+             "treat as blank), not_C05_eof_full (account + one blank at end of file, outside the grammar). ACCEPTANCE of the "
+             "documented grammar: doc/syntax.md is transcribed production by production (Spec/DocGrammar.lean, eleven charitable "
+             "readings R1-R11 and one extension E1 listed there) and DocAccept_ledger / DocAccept_ledger_eof prove that every text "
+             "the grammar derives - also with its last line ended by end of file - is accepted by the parser model, under three "
+             "decidable side conditions on single lexemes (numbers within the decimal range; a posting account without `;` and not "
+             "just `*`/`!`; no form feed in an `apply tag` key), each shown necessary by a derivable text the parser rejects "
+             "(not_DocAccept_full, numOk_needed, accountSemicolon_needed, accountMark_needed, applyTagOk_needed; confirmed on the "
+             "binary: known findings F34, F35; a fourth condition was the defect F36, fixed in /repo - noteOk_not_needed is the "
+             "regression theorem). The correspondence stream additionally feeds grammar-derived texts to the real parser (oracle: accepted). The model parser agrees with the real one on trees, entry spans, "
              "error offsets/line_start and formatted output on every generated text."),
     "note": ("winnow 0.7.6 combinators, chrono date acceptance, Rust str::trim*/lines and unicode-width are modelled, not verified; "
              "value expressions and numeric literals are the models of C07/C08 (Okane.ExprSyntax, Okane.Literal). doc/syntax.md is "
@@ -49,7 +57,7 @@ CLAIM = {
 
 THEOREMS = ["Okane.ParamsTie.nonCommodityChars_tie", "Okane.ParamsTie.isCommodityChar_tie", "Okane.ParamsTie.commentPrefix_tie",
             "Okane.ParamsTie.accountStop_tie", "Okane.ParamsTie.accountEndChars_tie", "Okane.ParamsTie.lotNoteStopChars_tie",
-            "Okane.ParamsTie.lineOrSemiStopChars_tie", "Okane.ParamsTie.numberToken_tie",
+            "Okane.ParamsTie.lineOrSemiStopChars_tie", "Okane.ParamsTie.numberToken_tie", "Okane.ParamsTie.parenStrStop_tie",
             "Okane.C05.C05_format_parse", "Okane.C05.C05_roundtrip_partial", "Okane.C05.C05_idempotent_partial",
             "Okane.C05.C05_entry_partial", "Okane.C05.C05_metadata_partial", "Okane.C05.C05_roundtrip_directives", "Okane.C05.C05_account",
             "Okane.C05.not_C05_image_full", "Okane.C05.not_C05_roundtrip_full", "Okane.C05.not_C05_idempotent_full",
@@ -66,10 +74,16 @@ THEOREMS = ["Okane.ParamsTie.nonCommodityChars_tie", "Okane.ParamsTie.isCommodit
             "Okane.Unparse.lot_rt", "Okane.Unparse.cost_rt", "Okane.Unparse.blockMetadata_rt", "Okane.Unparse.date_rt",
             "Okane.ExprParse.parse_print_follow",
             "Okane.C05.C05_image", "Okane.C05.C05_roundtrip_text", "Okane.C05.C05_idempotent_text",
-            "Okane.C05.C05_image_hypotheses_needed", "Okane.C05Image.printEntry_canon", "Okane.C05Image.not_image_unconditional",
+            "Okane.C05.C05_image_hypotheses_needed", "Okane.C05.C05_image_unclosed_paren", "Okane.Unparse.paren_conditions_needed",
+            "Okane.C05Image.printEntry_canon", "Okane.C05Image.not_image_unconditional",
             "Okane.PrintersAgree.printEntry_agree", "Okane.PrintersAgree.formatEntries_agree_std",
-            "Okane.PrintersAgree.C05_for_Print", "Okane.PrintersAgree.C05_C19_format"]
-EXTRA_IMPORTS = ["Okane.Props.C05Text", "Okane.Lemmas.PrintersAgreeC05"]
+            "Okane.PrintersAgree.C05_for_Print", "Okane.PrintersAgree.C05_C19_format",
+            "Okane.DocAccept.DocAccept_ledger", "Okane.DocAccept.DocAccept_ledger_eof", "Okane.DocAccept.not_DocAccept_full",
+            "Okane.DocAccept.numOk_needed", "Okane.DocAccept.accountSemicolon_needed", "Okane.DocAccept.accountMark_needed",
+            "Okane.DocAccept.applyTagOk_needed", "Okane.DocAccept.noteOk_not_needed", "Okane.DocAccept.literal_R7_rejected",
+            "Okane.DocAccept.valueExpr_accept", "Okane.DocAccept.posting_accept", "Okane.DocAccept.transaction_accept",
+            "Okane.DocAccept.lineMetadata_accept", "Okane.DocAccept.commaDecimal_wf"]
+EXTRA_IMPORTS = ["Okane.Props.C05Text", "Okane.Lemmas.PrintersAgreeC05", "Okane.Lemmas.DocAcceptExamples"]
 
 # ------------------------------------------------------------------------------------------------
 # alphabets
@@ -387,6 +401,11 @@ class Gen:
                 payee = self.free_text(exclude=";").lstrip(" \t\u3000\u00a0")
                 while payee[:1] in ("*", "!", "("):
                     payee = payee[1:]
+                if self.chance(0.06):
+                    # a `(` that is not closed on the payee's part of the line: since paren_str must close on its line
+                    # (F36) this text is the payee (or, with a `)` in an inline metadata further on, a code)
+                    self.feat("payee-open-paren")
+                    payee = "(" + payee.replace(")", "")
             if not payee:
                 self.feat("payee-empty")
             if any(ord(c) > 127 for c in payee):
@@ -540,6 +559,12 @@ FIXED_WITNESSES = [
     ("F17", "2024/01/01 x\n    A  1 USD\n    \n2024/01/02 y\n"),
     ("F17", "  \n\t\n2024/01/01 x\n \n; c\n\t"),
     ("F18", "2024/01/01 x\n    A  (5-3)\n    B  (5- 3 USD)\n    C  (5 -3)\n"),
+    # F36 (paren_str must close on its line): an unclosed `(` after the date is the payee
+    ("F36", "2024/01/01 (\naccount X)\n note c  d\n"),
+    ("F36", "2024/01/01 (abc\n  A  1 USD\n\naccount X)\n"),
+    ("F36", "2024/01/01 * (abc ; x) y\n"),
+    ("F36", "2024/01/01 ! (abc ; x\n  A  1 USD (n\n)\n"),
+    ("F36", "2024/01/01 (abc"),
 ]
 
 CANDIDATES = {
@@ -567,7 +592,10 @@ _TAGWORDS = re.compile(r"^(:[^ \t\n\x0c\r:]+)+:$")
 # tab (LF / CR end lines).  The recorded defects F27 / F28 are exactly about such characters (Lean: `asciiSpaceOnly`).
 _WS_OTHER = "\x0b\x0c\x85\xa0\u1680\u2000\u2001\u2002\u2003\u2004\u2005\u2006\u2007\u2008\u2009\u200a\u2028\u2029\u202f\u205f\u3000"
 _WS_OTHER_RE = "[" + _WS_OTHER + "]"
-_F28_LINE = re.compile(r"(?m)^[ \t]+[ \t" + _WS_OTHER + r"]*" + _WS_OTHER_RE + r"[ \t" + _WS_OTHER + r"]*\r?$")
+# F28: a posting line whose ACCOUNT (from the indentation to the first of: two blanks, tab, `;`, end of line) consists
+# only of white space, with at least one character the parser does not treat as a blank
+_F28_A = "(?:" + _WS_OTHER_RE + "| (?! ))"
+_F28_LINE = re.compile(r"(?m)^[ \t]+" + _F28_A + "*" + _WS_OTHER_RE + _F28_A + r"*(?:  |\t|;| ?\r?$)")
 
 
 def defect_class(rec, text=None):
